@@ -1,5 +1,6 @@
 import FractopoModel.Generated.ValidationUtils
 import FractopoModel.Lemmas.Stacking
+import FractopoModel.Lemmas.SharpCorners
 import FractopoModel.Generated.Windows
 import FractopoModel.Generated.ValidationDefaults
 import FractopoModel.Generated.JunctionShift
@@ -297,6 +298,19 @@ theorem C10_generated_segmentize {L' : Type} (interp : L' → Rat → Rat × Rat
     | nil => intro acc; simp [Gen.segmentize_linestring_loop1]
     | cons x rest ih => intro acc; simp [Gen.segmentize_linestring_loop1, ih, Gen.linestring_segment]
   simp [this]
+
+/-- **SHARP TURNS in closed form** (`SharpCornerValidator.validation_method`, regenerated): a two-vertex trace always passes; a trace
+whose chord direction is undefined fails; otherwise the trace passes iff EVERY segment has a defined direction within the average
+threshold of the chord direction and, from the second segment on, within the previous-segment threshold of its predecessor. -/
+theorem C10_generated_sharp_turns {L' P' V : Type} (coords_of : L' → List P') (dflt : P') (unit : P' → P' → V) (is_nan : V → Bool) (aligned : V → V → Rat → Bool)
+    (geom : L') (avg prev : Rat) :
+    Gen.sharp_corner_validation coords_of dflt unit is_nan aligned geom avg prev =
+      (let cs := coords_of geom
+       let chord := unit (cs.headD dflt) (cs.getLastD dflt)
+       if cs.length = 2 then true
+       else if is_nan chord then false
+       else (List.range (cs.length - 1)).all (SharpL.okAt dflt unit is_nan aligned cs chord avg prev)) :=
+  SharpL.generated_sharp coords_of dflt unit is_nan aligned geom avg prev
 
 end Utils
 
